@@ -136,6 +136,9 @@ def run_batcher(plan: dict, strategy, max_steps=40000):
             calls.append({"tok": int(checkpoint_token), "items": items, "ok": True,
                           "bytes": sum(sizes[i] for i in items)})
             emit("ApiRet", ok=True)
+            if plan.get("empty_pages_at") == n:
+                return CheckpointOutput(checkpoint_token=str(n),
+                                        new_execution_state=CheckpointUpdatedExecutionState(next_marker="empty-1"))
             if plan.get("page_fail_at") == n:
                 # the answer is paginated; fetching the next page will fail
                 return CheckpointOutput(checkpoint_token=str(n),
@@ -143,6 +146,19 @@ def run_batcher(plan: dict, strategy, max_steps=40000):
             return CheckpointOutput(checkpoint_token=str(n), new_execution_state=CheckpointUpdatedExecutionState())
 
         def get_execution_state(self, *a, **kw):
+            marker = kw.get("next_marker") or (a[2] if len(a) > 2 else "")
+            if str(marker).startswith("empty-"):
+                # the answer's listing continues with pages that hold no operations: one that still announces a further page, then
+                # a last one without a marker
+                from aws_durable_execution_sdk_python.lambda_service import StateOutput
+                st["page_fetches"] = st.get("page_fetches", 0) + 1
+                if st["page_fetches"] > 200:
+                    st["page_spin"] = True
+                    raise ApiBoom("the consumer keeps requesting pages")      # (breaks an endless loop so that the run can be judged)
+                s_, me_ = ds.current()
+                if me_ is not None:
+                    s_.yield_point(me_, "GetState")
+                return StateOutput(operations=[], next_marker="empty-2" if marker == "empty-1" else None)
             calls[-1]["page_failed"] = True
             emit("PageFail")
             raise ApiBoom("fetching the next page of the checkpoint response failed")
@@ -217,6 +233,8 @@ def run_batcher(plan: dict, strategy, max_steps=40000):
         sched.run(main, name="main")
     finally:
         sdk_thr.Event = saved
+    if st.get("page_spin") and sched.verdict is None:
+        sched.verdict, sched.verdict_info = "hang", "the consumer requested more than 200 pages of one checkpoint answer (it does not advance)"
     return {"evs": evs, "handed": handed, "calls": calls, "sizes": sizes, "syncs": syncs, "outcomes": outcomes,
             "verdict": sched.verdict, "verdict_info": sched.verdict_info, "steps": sched.steps, "choices": sched.choices,
             "plan": plan}
@@ -238,6 +256,7 @@ def random_plan(rng: random.Random, allow_oversize=True, allow_fail=True):
             "window": rng.choice([0.0, 0.05, 0.3, 1.0]),
             "fail_at": (rng.choice([1, 2, 3]) if (allow_fail and rng.random() < 0.35) else None),
             "page_fail_at": (rng.choice([1, 2, 3]) if (allow_fail and rng.random() < 0.2) else None),
+            "empty_pages_at": (rng.choice([1, 2, 3]) if rng.random() < 0.25 else None),    # that answer continues with empty pages
             "unicode": rng.random() < 0.4,      # every other update carries non-ASCII text (6 wire bytes per character)
             "stagger": [[rng.choice([0.0, 0.0, 0.05, 0.2, 1.1])] for _ in range(nprod)]}
     return plan
